@@ -14,12 +14,14 @@ Ev == Traces[tid].events[l]
 IsEvent(name) == l <= Len(Traces[tid].events) /\ Ev.act = name /\ l' = l + 1 /\ UNCHANGED tid
 (* the sign of a NaN row is not observable *)
 Logged == /\ nn' = ToFun(Ev.nn) /\ \A i \in Rows : ~nn'[i] => sg'[i] = Ev.sg[i]
-          /\ NoJumpAfterRJ' /\ FilledContinuesLeft' /\ NoJumpBetweenValid'     \* invariants as guards
 TRJ == IsEvent("RemoveJumps") /\ RemoveJumps /\ Logged
 TSN == IsEvent("SlerpNan") /\ SlerpNan(Ev.inplace) /\ Logged
 TraceNext == TRJ \/ TSN
 TraceSpec == TraceInit /\ [][TraceNext]_tvars
-Progress == LET f == TLCGet(1) IN IF f[tid] < l THEN TLCSet(1, [f EXCEPT ![tid] = l]) ELSE TRUE
+(* a state that violates an invariant is pruned and does not count as progress (an INVARIANT in the cfg would stop
+   the whole batch at the first violation; priming the invariants into the actions is an order of magnitude slower) *)
+TraceInv == NoJumpAfterRJ /\ FilledContinuesLeft /\ NoJumpBetweenValid
+Progress == TraceInv /\ (LET f == TLCGet(1) IN IF f[tid] < l THEN TLCSet(1, [f EXCEPT ![tid] = l]) ELSE TRUE)
 Accepted == LET f == TLCGet(1) IN
             \A t \in 1..Len(Traces) : \/ f[t] = Len(Traces[t].events) + 1
                                       \/ PrintT(<<"REJECTED", t, f[t]>>) /\ FALSE
